@@ -25,6 +25,14 @@ def run (toks : List String) : String :=
       | none => "rejected"
       | some bs => s!"len={bs.length} batches={showBatches bs}"
     | _, _, _ => "bad-op"
+  -- loops <nx> <ny> <b> <k1,k2,...> : successive for-loops over ONE loader object, loop i abandoned after at most k_i items
+  | ["loops", nx, ny, b, ks] =>
+    match parseNat? nx, parseNat? ny, parseNat? b, parseNatList? ks with
+    | some nx, some ny, some b, some ks =>
+      match Loader.loops ks { nx := nx, ny := ny, b := b, step := 0 } with
+      | none => "rejected"
+      | some ls => if ls.isEmpty then "_" else " / ".intercalate (ls.map showBatches)
+    | _, _, _, _ => "bad-op"
   -- onehot <labels>
   | ["onehot", ys] =>
     match parseIntList? ys with
